@@ -50,6 +50,7 @@ def run(F, R, tier):
     r13_1(c, R)
     r13_2(c, R, spec)
     r13_3(c, duke, R, spec)
+    r13_4(c, R)
     return ("A10 cursor/element provenance in merge_preserve_order (membership tests the other list, paired cursors advance together, "
             "emit/progress/tail structure); A5 tables: merge_slice presence table (4 cells), jar combination table, entry-kind table "
             "(9 cells), skip conditions by truth table, EnvType names, annotation shapes vs spec/c13_merge.json; A4 field conformance of "
@@ -1041,3 +1042,62 @@ def r13_3(c, duke, R, spec):
                        expect=sorted(want) or "not listed", got=sorted(got) if got is not None else "no decidable arm",
                        detail="an interface implemented on one side only is listed in EnvironmentInterfaces with that side")
     R.floor(rid, 50)
+
+
+# ------------------------------------------------------------------------------------ R13.4
+def r13_4(c, R):
+    """Key-space agreement of the in-memory jar that `merge` reads: names() must hand out exactly the keys by_entry_key() understands."""
+    rid = "R13.4"
+    R.rule(rid, "entries are found under the key their name was listed with: for `&ParsedJar`, entry_keys() is 0..entries.len(), by_entry_key(k) is "
+                "entries.get_index(k), and names() walks the same `entries` map front to back with only element-wise adaptors before the single "
+                "`enumerate()` (no filter/skip/rev/sort between the map and the index), so index i of names() is position i of get_index")
+    impls = [b for b in c.bodies if "storage::parsed" in b["key"] and (b.get("impl_trait_path") or "").endswith("OpenedJar") and b.get("name")]
+    by = {b["name"]: b for b in impls}
+    if not R.anchor(rid, "impl OpenedJar for &ParsedJar {entry_keys, by_entry_key, names}", all(k in by for k in ("entry_keys", "by_entry_key", "names"))):
+        return
+
+    def chain(n):
+        """method chain root-first: (root node, [names])"""
+        names = []
+        n = H.peel(n)
+        while n.get("k") == "mcall":
+            names.append(n["name"])
+            n = H.peel(n["recv"])
+        return n, list(reversed(names))
+
+    def tail(b):
+        n = H.peel(b["body"])
+        while n.get("k") == "block" and "tail" in n and not n["stmts"]:
+            n = H.peel(n["tail"])
+        return n
+    # names()
+    root, ch = chain(tail(by["names"]))
+    rfields = [f for _, f in H.field_accesses(root)] if root.get("k") == "field" else []
+    ELEMENTWISE = {"keys", "iter", "map", "as_str", "as_ref", "cloned", "copied", "inspect", "by_ref", "into_iter"}
+    REORDER = {"filter", "filter_map", "skip", "skip_while", "take", "take_while", "rev", "step_by", "chain", "zip", "flat_map", "flatten", "sorted",
+               "dedup", "peekable", "scan", "map_while", "cycle", "fuse"}
+    bad = [x for x in ch if x in REORDER]
+    unknown = [x for x in ch if x not in ELEMENTWISE and x not in REORDER and x != "enumerate"]
+    if unknown:
+        R.unrecognised(rid, "names()", "iterator adaptor(s) %s between `entries` and the index" % unknown, sp=by["names"]["sp"])
+    R.inst(rid, "names:walks-entries", rfields[-1:] == ["entries"], sp=by["names"]["sp"], got=H.render(root))
+    R.inst(rid, "names:index-is-map-position", ch.count("enumerate") == 1 and not bad and (not ch or ch.index("enumerate") >= 1), sp=by["names"]["sp"],
+           got=ch, expect="entries.keys()/iter() -> element-wise adaptors -> enumerate()",
+           detail="an adaptor that drops or reorders elements before enumerate() shifts every later key: by_entry_key(i) then returns another entry")
+    # entry_keys(): 0..entries.len()
+    t = tail(by["entry_keys"])
+    ok = False
+    if t.get("k") == "struct" and (t.get("adt") or "").endswith("Range"):
+        f = {x["name"]: x["e"] for x in t["fields"]}
+        end = H.peel(f.get("end", {}))
+        ok = H.const_value(f.get("start", {})) == 0 and end.get("k") == "mcall" and end["name"] == "len" and H.place_root(end["recv"])[1][-1:] == ["entries"]
+    R.inst(rid, "entry_keys:0..len", ok, sp=by["entry_keys"]["sp"], got=H.render(t))
+    # by_entry_key(k): entries.get_index(k)
+    gi = [n for n in H.walk(by["by_entry_key"]["body"]) if n.get("k") == "mcall" and n["name"] == "get_index"]
+    ok = False
+    if len(gi) == 1:
+        kparam = H.param_ids(by["by_entry_key"])
+        a = H.local_of(gi[0]["args"][0])
+        ok = H.place_root(gi[0]["recv"])[1][-1:] == ["entries"] and bool(a) and a[0] == kparam[-1]
+    R.inst(rid, "by_entry_key:get_index(key)", ok, sp=by["by_entry_key"]["sp"])
+    R.floor(rid, 4)
